@@ -303,6 +303,49 @@ def config_inventory(
     cover("built")
 
 
+WL_FREQS = ["WIFI_2_4", "WIFI_5"]
+
+
+def wireless_inventory(f1: int, f2: int):
+    """The shipped wireless-WAN scenario with the frequency of each router's access point a solver choice: every access
+    point is built on the declared frequency - as reported by the interface AND as registered in the air space - and the
+    two hosts reach each other exactly when both access points share a frequency."""
+    import yaml
+
+    from primaite.game.game import PrimaiteGame
+
+    assume(all_of(rng(f1, 0, 1), rng(f2, 0, 1)))
+    fa, fb = pick(WL_FREQS, f1), pick(WL_FREQS, f2)
+    with concrete():
+        quiet()
+        with open("/repo/tests/assets/configs/wireless_wan_network_config.yaml") as fh:
+            cfg = yaml.safe_load(fh)
+        for n in cfg["simulation"]["network"]["nodes"]:
+            if n["hostname"] == "router_1":
+                n["wireless_access_point"]["frequency"] = fa
+            elif n["hostname"] == "router_2":
+                n["wireless_access_point"]["frequency"] = fb
+        try:
+            game = PrimaiteGame.from_config(cfg)
+        except Exception as e:
+            fail(f"from_config raised {type(e).__name__}: {str(e)[:200]} for access points on {fa} / {fb}")
+        net = game.simulation.network
+        air = net.airspace
+        for name, want in (("router_1", fa), ("router_2", fb)):
+            r = net.get_node_by_hostname(name)
+            ap = r.wireless_access_point
+            check(ap.frequency.name == want, lambda: f"{name}: access point built on {ap.frequency.name}, the scenario declares {want}")
+            check(ap.enabled, f"{name}: access point not enabled")
+            groups = [hz for hz, lst in air.wireless_interfaces_by_frequency.items() if ap in lst]
+            check(groups == [ap.frequency.frequency_hz], lambda: f"{name}: access point declared on {want} is registered in the air space under {groups} (its own frequency is {ap.frequency.frequency_hz})")
+        a, b = net.get_node_by_hostname("pc_a"), net.get_node_by_hostname("pc_b")
+        ok = False
+        for _ in range(4):
+            ok = a.ping("192.168.2.2", pings=1) or ok
+    cover("wireless_built")
+    check(bool(ok) == (fa == fb), lambda: f"access points on {fa} / {fb}: ping across the wireless link {'succeeds' if ok else 'fails'}")
+
+
 SCHED_ORDERS = [(0, 1, 2), (2, 1, 0), (1, 0, 2), (2, 0, 1)]
 
 
@@ -520,6 +563,13 @@ HARNESSES = {
         "thorough": [{"fixed": {"b_users": u, "b_files": f, "b_dnsopt": f, "b_ftpopt": u, "b_off": o, "b_nmne": o, "b_prev": p, "perm": p}, "timeout": 1500} for u in (False, True) for f in (False, True) for o in (False, True) for p in (False, True)],
         "cover": ["built", "perm"],
         "bounds": {"quick": "14 presence bits (7 coupled per job; another scenario with the opposite NMNE declaration loaded before), 3 ACL positions (0, 11, 23), 3 durations, 2 bandwidths (one fractional), key-order permutation", "thorough": "all 2^11 presence combinations of the first 11 bits, the dns-client option bit coupled to the files bit"},
+    },
+    "wireless_inventory": {
+        "fn": wireless_inventory,
+        "quick": [{"fixed": {}, "timeout": 200}],
+        "thorough": [{"fixed": {}, "timeout": 200}],
+        "cover": ["wireless_built"],
+        "bounds": "the shipped wireless-WAN scenario with each access point declared on WIFI_2_4 or WIFI_5 (4 combinations)",
     },
     "schedule_inventory": {
         "fn": schedule_inventory,
